@@ -178,6 +178,11 @@ pub struct Gc<T: Default + Reset + Traceable> {
     /// Weak reference to space - used to check if space is still alive before accessing ptr
     /// This prevents use-after-free when Gc outlives the Space (e.g., during interpreter shutdown)
     space: Weak<RefCell<Space<T>>>,
+
+    /// Generation of the slot this handle was created for. A handle whose generation
+    /// differs from the slot's current one is stale (the slot was reused) and must not
+    /// touch the new tenant's ref_count.
+    generation: u32,
 }
 
 impl<T: Default + Reset + Traceable> PartialEq for Gc<T> {
@@ -250,14 +255,15 @@ impl<T: Default + Reset + Traceable> Clone for Gc<T> {
         // Increment ref_count (only if space is still alive)
         if let Some(_space) = self.space.upgrade() {
             let gc_box = unsafe { self.ptr.as_ref() };
-            // Only increment if not pooled
-            if !gc_box.pooled.get() {
+            // Only increment if not pooled and not stale (slot reused by another object)
+            if !gc_box.pooled.get() && gc_box.generation.get() == self.generation {
                 gc_box.ref_count.set(gc_box.ref_count.get() + 1);
             }
         }
         Self {
             ptr: self.ptr,
             space: self.space.clone(),
+            generation: self.generation,
         }
     }
 }
@@ -276,9 +282,9 @@ impl<T: Default + Reset + Traceable> Drop for Gc<T> {
 
         // Check if this Gc is from a different generation (object was reused)
         // In that case, don't affect ref_count - this Gc is stale
-        // if gc_box.generation.get() != self.generation {
-        //     return;
-        // }
+        if gc_box.generation.get() != self.generation {
+            return;
+        }
 
         if gc_box.pooled.get() {
             return;
@@ -354,7 +360,7 @@ pub struct GcBox<T: Default + Reset + Traceable> {
     pooled: Cell<bool>,
     // Generation counter - incremented each time slot is reused from pool.
     // Old Gc pointers with different generations don't affect ref_count.
-    // generation: Cell<u32>,
+    generation: Cell<u32>,
 }
 
 impl<T: Default + Reset + Traceable> GcBox<T> {
@@ -364,7 +370,7 @@ impl<T: Default + Reset + Traceable> GcBox<T> {
             data: RefCell::new(data),
             ref_count: Cell::new(0),
             pooled: Cell::new(false),
-            // generation: Cell::new(0),
+            generation: Cell::new(0),
         }
     }
 }
@@ -493,6 +499,8 @@ impl<T: Default + Reset + Traceable> Space<T> {
             gc_box.data.borrow_mut().reset();
             gc_box.ref_count.set(1); // Start with ref_count = 1 for the returned Gc
             gc_box.pooled.set(false);
+            // New tenant: handles to the previous one become stale
+            gc_box.generation.set(gc_box.generation.get().wrapping_add(1));
             ptr
         } else {
             // Need to allocate new - check if current chunk has space
@@ -543,9 +551,11 @@ impl<T: Default + Reset + Traceable> Space<T> {
             NonNull::from(gc_box)
         };
 
+        let generation = unsafe { ptr.as_ref() }.generation.get();
         Gc {
             ptr,
             space: self.self_weak.clone(),
+            generation,
         }
     }
 
@@ -883,7 +893,7 @@ impl<T: Default + Reset + Traceable> Guard<T> {
     pub fn guard(&self, obj: Gc<T>) {
         if let Some(_space) = self.space.upgrade() {
             let gc_box = unsafe { obj.ptr.as_ref() };
-            if !gc_box.pooled.get() {
+            if !gc_box.pooled.get() && gc_box.generation.get() == obj.generation {
                 self.inner.roots.borrow_mut().push(obj.ptr);
             }
         }
